@@ -316,6 +316,10 @@ func (fact EmptyProposalINITBallotFact) IsValid([]byte) error {
 		return e.Errorf("empty r")
 	}
 
+	if !fact.Hash().Equal(fact.generateHash()) {
+		return e.Errorf("wrong hash of EmptyProposalINITBallotFact")
+	}
+
 	return nil
 }
 
